@@ -108,6 +108,7 @@ fn main() {
     let seed: u64 = args[1].parse().unwrap();
     let n: usize = args[2].parse().unwrap();
     let all_sizes = args.get(3).map(|s| s == "all").unwrap_or(false);
+    std::panic::set_hook(Box::new(|_| {}));
     let mut rng = Rng::new(seed);
     let boundary = [28usize, 29, 30, 39, 40, 41, 42, 43, 44, 60, 64, 100, 128, 255, 256, 257, 512, 1024, 1100, 1499, 1500, 1513, 1514];
     for i in 0..n {
@@ -117,7 +118,11 @@ fn main() {
             Push::Pdu { kind, a, r, data, ovr } => format!("{{\"p\":\"pdu\",\"kind\":{},\"a\":{},\"r\":{},\"data\":{},\"ovr\":{}}}", kind, a, r, bytes_json(data), ovr.map(|o| o.to_string()).unwrap_or("null".into())),
             Push::Rest { kind, a, r, bytes } => format!("{{\"p\":\"rest\",\"kind\":{},\"a\":{},\"r\":{},\"data\":{}}}", kind, a, r, bytes_json(bytes)),
         }).collect();
-        let body = dispatch(cap, &case, &mut rng);
+        // a panic inside the frame builder is an answer to this case, not the end of the run
+        let body = match std::panic::catch_unwind(std::panic::AssertUnwindSafe(|| dispatch(cap, &case, &mut rng))) {
+            Ok(b) => b,
+            Err(_) => "\"panic\":true,\"results\":[]".to_string(),
+        };
         println!("{{\"cap\":{},\"idx0\":{},\"prog\":[{}],{}}}", cap, case.idx0, prog.join(","), body);
     }
 }
